@@ -78,9 +78,10 @@ func (r *wireResp) bytes() []byte {
 	return b.Bytes()
 }
 
-func applyMuts(r *wireResp, muts []Mut, scheme, host string) {
+func applyMuts(r *wireResp, muts []Mut, scheme, host string, n int) {
 	for _, m := range muts {
 		v := strings.ReplaceAll(strings.ReplaceAll(m.V, "$SCHEME", scheme), "$HOST", host)
+		v = strings.ReplaceAll(v, "$N", strconv.Itoa(n)) // changes with every request the server reads
 		switch m.Op {
 		case "status":
 			parts := strings.SplitN(v, " ", 2)
@@ -565,7 +566,10 @@ func (s *server) perform(c net.Conn, idx int, req *base.Request, acts []Action) 
 		switch a.Kind {
 		case "resp", "half":
 			r := s.correct(req)
-			applyMuts(r, a.Muts, s.scheme, s.host)
+			s.mu.Lock()
+			nn := s.nreq
+			s.mu.Unlock()
+			applyMuts(r, a.Muts, s.scheme, s.host, nn)
 			b := r.bytes()
 			if a.Kind == "half" {
 				write(b[:len(b)/2])
